@@ -11,7 +11,7 @@ verus! {
 //#include ../_shared/attr_specs.inc.rs
 //#use-contract tracker_geom ../_shared/attribution.inc.rs
 
-pub struct AttributionConfig { pub _opaque: () }
+#[verifier::external_body] pub struct AttributionConfig { _o: () }
 //#item file=src/authorship/attribution_tracker.rs kind=struct name=AttributionTracker
 pub struct AttributionTracker {
     config: AttributionConfig,
